@@ -4,8 +4,10 @@ from . import redirects as R
 
 RULE = ("flows at redirect depth 0..4 (same chain generator as C13/C14) where at each depth the caller adds 0..3 headers with names from "
         "{cookie, authorization, x-new, connection, accept, host (when the original has none)}; plus dedicated scripts adding 0..60 "
-        "headers incl. content-length on flows that send a body. The head written afterwards is parsed: every added header must be "
-        "present, in the order added, ahead of every inherited header. non-trivial = at least one header added at depth >= 1 or >= 5 "
+        "headers incl. content-length on flows that send a body, values with non-UTF-8 bytes and white space, headers identical to one of the "
+        "original request (also re-attached after a redirect), additions made before and after send_body_despite_method. The head "
+        "written afterwards is parsed: the field lines right after the request line must be exactly the added headers, byte for byte, "
+        "in the order added (hence ahead of the analysis-added and inherited ones). non-trivial = at least one header added at depth >= 1 or >= 5 "
         "headers added; distinct = distinct op lists")
 TRUSTED_BASE = COMMON_TRUSTED_BASE
 ASSUMPTIONS = ["restricted to resulting requests that request analysis accepts (C17)"]
@@ -21,11 +23,19 @@ def gen_many(rng):
     added = []
     for i in range(n):
         nm = rng.choice(NAMES)
-        added.append((nm, b"added-%d" % i))
+        added.append((nm, b"added-%d" % i + rng.choice([b"", b"", b"-caf\xe9", b"-\xff\xfe\x80", b"-\xc3\xa9", b" \t x"])))
+    if rng.random() < 0.3:
+        # identical to a header of the original request
+        added.insert(rng.randrange(0, len(added) + 1), rng.choice([(b"accept", b"orig-accept"), (b"x-orig", b"o1"), (b"X-Orig", b"o1")]))
     if method in BODY_METHODS and rng.random() < 0.5:
         added.insert(rng.randrange(0, len(added) + 1), (b"content-length", b"7"))
-    for k, v in added:
+    despite_at = rng.randrange(0, len(added) + 1) if (method in ("GET", "HEAD") and rng.random() < 0.5) else None
+    for i, (k, v) in enumerate(added):
+        if despite_at == i:
+            ops.append("despite")       # some headers are added before, some after send_body_despite_method
         ops.append("header %s %s" % (hx(k), hx(v)))
+    if despite_at == len(added):
+        ops.append("despite")
     ops += ["q_uri", "q_method", "proceed", "write_head #100000"]
     meta = {"orig_headers": [[k.hex(), v.hex()] for k, v in orig], "explicit_host": False,
             "hops": [{"hop": 0, "added": [[k.hex(), v.hex()] for k, v in added], "head_idx": len(ops) - 1}]}
@@ -36,7 +46,7 @@ def generate(rng, tier, mult):
     count = (1200 if tier == "quick" else 12000) * mult
     out = []
     for _ in range(count):
-        ops, meta = R.gen_chain(rng, malformed_prob=0.0, add_at_hops=True)
+        ops, meta = R.gen_chain(rng, malformed_prob=0.0, add_at_hops=True, readd_original=True)
         out.append({"ops": ops, "meta": meta})
     out += [gen_many(rng) for _ in range(count // 4)]
     return out
@@ -65,19 +75,15 @@ def oracle(script, obs):
             _stats["added_at_depth"][d] = _stats["added_at_depth"].get(d, 0) + 1
             if any(k.lower() in (b"cookie", b"authorization", b"content-length") for k, v in added):
                 _stats["sensitive_added"] += 1
-        # every added header present, in order, ahead of the inherited ones
+        # every added header present, byte for byte, in the order added, ahead of every other header (the ones analysis adds and
+        # the inherited ones): the field lines right after the request line are exactly the added ones
         want = [(k.lower(), v) for k, v in added]
-        got_added = [(k, v) for k, v in hs if v.startswith(b"added-") or (k == b"content-length" and v == b"7")]
-        if got_added != want:
-            missing = [x for x in want if x not in got_added]
-            fails.append("depth %d: added headers on the wire %r, expected %r (missing %r)" % (h["hop"], got_added[:4], want[:4], missing[:3]))
+        got = hs[:len(want)]
+        if got != want:
+            j = next((i for i in range(len(want)) if i >= len(got) or got[i] != want[i]), 0)
+            fails.append("depth %d: the first %d field lines must be the %d caller-added headers in order; field %d is %r, expected %r" % (
+                h["hop"], len(want), len(want), j, got[j] if j < len(got) else None, want[j]))
             return fails
-        if want:
-            last_added = max(i for i, (k, v) in enumerate(hs) if (k, v) in want)
-            first_inherited = [i for i, (k, v) in enumerate(hs) if v in orig_values]
-            if first_inherited and min(first_inherited) < last_added:
-                fails.append("depth %d: an inherited header precedes a caller-added one" % h["hop"])
-                return fails
     return fails
 
 
